@@ -167,7 +167,7 @@ PROPS = {
         'text': 'Every function on the muxing path is verified against, or assumed with, a contract whose result is a function of its arguments and old(self); alias pairs and finish variants are proved equal; '
                 'Muxer<W>: Send/Sync follows for all W from the trait solver. Thread schedules are not modelled: independence of threads is claimed only via the side condition "no ambient mutable state", which is a mechanical scan.',
         'note': 'reduced claim: threads are not modelled by either verifier (DESIGN.md section 6 C17)',
-        'kani': ['k_aliases', 'k_send_sync', 'kb_is_keyframe_h264'], 'assumptions': [],
+        'kani': ['k_aliases', 'k_build_audio_none', 'k_build_audio_opus', 'k_send_sync', 'kb_is_keyframe_h264'], 'assumptions': [],
         'scan': True,
     },
     'C18': {
